@@ -17,7 +17,7 @@ def sweep_generated(comp, zic_tables, pid, tier, seed, step=None, win=0, timeout
         zicrun.write_tables(zic_tables, names, opath)
         srcs = [os.path.join(d, f) for f in ('zone_infos.cpp', 'zone_policies.cpp', 'zone_registry.cpp')]
         try:
-            exe = runner.build_driver('zone_sweep.cpp', 'fast', extra_srcs=srcs, extra_flags=['-DVERIF_GEN_NS=vdb', '-DVERIF_GEN_EXT=%d' % (1 if ext else 0)], extra_inc=[d])
+            exe = runner.build_driver('zone_sweep.cpp', 'fast', extra_srcs=srcs, extra_flags=['-DVERIF_GEN_NS=vdb', '-DVERIF_GEN_EXT=%d' % (1 if ext else 0)], extra_inc=[d], strict=True)
         except runner.Broken as e:
             return None, str(e)
         args = ['--db=gen', '--oracle=' + opath, '--pid=' + pid]
